@@ -69,7 +69,11 @@ func main() {
 		skip := R.Chance(30)
 		res := do(fmt.Sprintf("init n=%d me=%d powers=%s skip=%s addrs=%s", n, me, strings.Join(ps, ","), vh.B01(skip), strings.Join(as, ",")))
 		r.Count(fmt.Sprintf("n=%d.powers=%d", n, pm))
+		ledgerOff := false // after a torn restart the node has legitimately forgotten an input the ledger still has
 		fail := func(cls, detail, got, want string) {
+			if ledgerOff {
+				return
+			}
 			r.Fail(vh.Failure{Class: cls, Detail: detail, Ops: append([]string{}, history[1:]...), Got: got, Want: want})
 		}
 		// ---- the monitor's ledger: what the node has RECEIVED (valid votes), per round and type
@@ -336,6 +340,68 @@ func main() {
 				}
 				step(op)
 				r.Count(fmt.Sprintf("act.badvote%d", kind))
+			case c < 96 && r.Mode == "wal": // kill + restart from the WAL (C07)
+				switch k := R.Intn(10); {
+				case k < 5:
+					// R1: a kill after a fully processed input; the replay must restore the round state and the votes
+					core := func(x string) string {
+						x = strings.Split(x, " | ")[0]
+						if i := strings.Index(x, "h="); i >= 0 {
+							x = x[i:]
+						}
+						if i := strings.Index(x, " q="); i >= 0 {
+							x = x[:i]
+						}
+						return x
+					}
+					if dead {
+						break
+					}
+					b0, v0, p0 := core(res), do("votes"), do("proposer")
+					step("restart torn=0")
+					r.Count("act.restart")
+					if dead {
+						break
+					}
+					b1 := core(res)
+					v1, p1 := do("votes"), do("proposer")
+					if b0 != b1 || v0 != v1 {
+						if p0 != p1 {
+							if !ledgerOff {
+								r.Count("finding.reloaded-proposer-differs")
+							}
+							fail("restart-recomputes-another-proposer-and-replay-diverges", "after a kill at height > 1 the restarted node names another proposer for the same round ("+p0+" before, "+p1+" after): the replay rejects the proposal it had accepted and the round state differs", b1+" "+v1, b0+" "+v0)
+							ledgerOff = true
+						} else {
+							fail("replayed-state-differs-from-pre-crash-state", "kill after a processed input, restart, WAL replay: the round state or the votes differ from the state before the kill", b1+" "+v1, b0+" "+v0)
+						}
+					}
+				case k < 8:
+					if im.CanTear() {
+						step("restart torn=1")
+						ledgerOff = true
+						r.Count("act.restart-torn")
+					}
+				default: // killed after the WAL write of an input, before it was handled
+					if nblk > 0 {
+						v := R.Intn(n)
+						if v != me {
+							b := known()
+							op := fmt.Sprintf("vote t=%d h=%d r=%d idx=%d addr=%x block=%s ok=1 peer=p%d presave=1", R.Range(1, 2), h, rd, v, im.C.Addr(v), b, v)
+							k2 := rk{rd, int(nodeimpl.Atoi(strings.Split(strings.Split(op, "t=")[1], " ")[0]))}
+							if recv[k2] == nil {
+								recv[k2] = map[int]string{}
+							}
+							if _, dup := recv[k2][v]; !dup {
+								recv[k2][v] = b
+							}
+							res2 := do(op)
+							_ = res2
+							step("restart torn=0")
+							r.Count("act.restart-presaved")
+						}
+					}
+				}
 			default:
 				step("drain")
 				r.Count("act.drain")
